@@ -21,7 +21,7 @@ POINTEES = {
 INDEX_TYPES = ['signed char', 'unsigned char', 'char', 'short', 'unsigned short', 'int', 'unsigned int', 'long',
                'unsigned long', 'long long', 'unsigned long long', 'bool', 'char16_t', 'char32_t', 'wchar_t']
 
-PRE = '_Bool g_noabort; _Bool g_backend_nonnull;'
+PRE = '_Bool g_noabort; _Bool g_backend_nonnull; unsigned long g_expect_example; unsigned long g_expect_malloc_size;'
 
 
 def tstruct(pointee):
